@@ -1,6 +1,8 @@
 package gosmt
 
 import (
+	"runtime"
+	"sync/atomic"
 	"encoding/json"
 	"fmt"
 	"os"
@@ -129,6 +131,8 @@ func Check(cfg *Config) int {
 	results := make([]*HarnessResult, len(hs))
 	var wg sync.WaitGroup
 	sem := make(chan struct{}, workers)
+	stopWatch := startMemWatch()
+	defer stopWatch()
 	for i, h := range hs {
 		wg.Add(1)
 		go func(i int, h harnessRef) {
@@ -578,4 +582,39 @@ func Replay(cfg *Config, file string) int {
 	}
 	fmt.Printf("VIOLATION property=%s replay=%s\n", prop, file)
 	return 1
+}
+
+
+// memPressure is set while the process heap is above the budget (GOSMT_MEM_GB, default 24): long-running
+// harnesses then end as inconclusive ("memory budget exceeded") instead of the whole check being killed.
+var memPressure atomic.Bool
+
+func startMemWatch() func() {
+	limit := uint64(24) << 30
+	if v := os.Getenv("GOSMT_MEM_GB"); v != "" {
+		var g uint64
+		if _, err := fmt.Sscan(v, &g); err == nil && g > 0 {
+			limit = g << 30
+		}
+	}
+	done := make(chan struct{})
+	go func() {
+		t := time.NewTicker(2 * time.Second)
+		defer t.Stop()
+		for {
+			select {
+			case <-done:
+				return
+			case <-t.C:
+				var m runtime.MemStats
+				runtime.ReadMemStats(&m)
+				if m.HeapAlloc > limit {
+					memPressure.Store(true)
+				} else if m.HeapAlloc < limit/2 {
+					memPressure.Store(false)
+				}
+			}
+		}
+	}()
+	return func() { close(done) }
 }
